@@ -222,7 +222,8 @@ def _cart_spec(rng):
         'version': rng.choice([8, 16, 29, 33]),
         'code': core.enc_bytes(code),
         'regions': {k: rng.choice(['empty', rng.randint(1, 10**9),
-                                   rng.randint(1, 10**9)])
+                                   rng.randint(1, 10**9),
+                                   {'$fill': rng.choice([0xff, 0x80, 0x7f])}])
                     for k in refcodec.REGIONS},
         'label': rng.choice([None, {'p8_seed': rng.randint(1, 10**6),
                                     'png_seed': rng.randint(1, 10**6)}]),
@@ -996,8 +997,11 @@ def run_job(job):
             if fl['kind'] == 'CODE-TOO-BIG':
                 # more code than the .p8.png code area holds even when
                 # compressed (poorly compressible text)
-                if base['fmt'] != 'png' or job['index'] % 4:
-                    continue
+                if base['fmt'] != 'png' or (
+                        job['tier'] == 'quick' and (
+                            job['index'] % 8 or
+                            os.environ.get('PICOSIM_CONFIG'))):
+                    continue           # (each such run costs seconds)
                 sc['cart'] = dict(sc['cart'], code={'$bigtext': 24000})
             if fl['kind'] == 'WARN-STREAM-ERR':
                 # enough tokens to make the writer warn on the (broken)
